@@ -37,7 +37,8 @@ pub fn sizes(ctx: &Ctx, layer: &str) -> Sizes {
     }
     // well inside the 4-byte length class, not a multiple of any power-of-two block size
     g3.extend_from_slice(&[2_200_003, 4_194_305]);
-    let mut g3p = vec![127usize, 128, 129, 130, 16_383, 16_384, 16_385, 16_386, 16_387];
+    // 131,075 = one user property with a 65,535-byte name AND a 65,535-byte value (both fields maximal at once)
+    let mut g3p = vec![127usize, 128, 129, 130, 16_383, 16_384, 16_385, 16_386, 16_387, 131_072, 131_074, 131_075, 131_080];
     if ctx.thorough {
         g3p.extend_from_slice(&[2_097_151, 2_097_152, 2_097_153, 2_097_155, 2_097_156]);
     }
